@@ -77,7 +77,7 @@ CHECKS.update({
    note="Hand-edited schema files and Send/Sync/receiver changes are not generated."),
  "C16": dict(cat="exploration", design="DESIGN.md §3 C16, engine/ABI_INTEGRATION.md §3",
    technique="randomised schedule sampling: generated multi-thread programs run in fresh processes with seeded perturbation, compared against the sequential run; watchdog with deadlock confirmation",
-   text="LOW ASSURANCE (sampling of schedules only). Generated programs for 2..16 threads create connections (first use and cached, same and different interfaces, nested creation through closures/trait objects) and call shared connections; results must equal the sequential run and all threads must finish; a stuck process is only reported as a violation after confirmation (all threads asleep with unchanged CPU time over three samples, gdb backtrace attached), otherwise inconclusive. In addition, exhaustively over every generated interface revision (unbounded, `: Send`, `: Send + Sync`), AbiConnection<dyn Trait> must be Send / Sync only if the interface declares it (compile-time answer observed at a monomorphic call site).",
+   text="LOW ASSURANCE (sampling of schedules only). Generated programs for 2..16 threads create connections (first use and cached, same and different interfaces, attempts towards incompatible revisions whose negotiation fails, nested creation through closures/trait objects and through user code in the implementation's Drop) and call shared connections; results must equal the sequential run and all threads must finish; a stuck process is only reported as a violation after confirmation (all threads asleep with unchanged CPU time over three samples, gdb backtrace attached), otherwise inconclusive. In addition, exhaustively over every generated interface revision (unbounded, `: Send`, `: Send + Sync`), AbiConnection<dyn Trait> must be Send / Sync only if the interface declares it (compile-time answer observed at a monomorphic call site).",
    note="Absence of races/deadlocks is not established. No ThreadSanitizer build, no lock-site hooks, no load_shared_library path (no cdylib)."),
 })
 
